@@ -332,12 +332,14 @@ pub(crate) fn mode(entry: &VfsEntry, octal: u32, sym: &str) -> RvResult<u32> {
 
     let mut state = State::Target;
     let mut complete = true; // tracks that the clause being parsed got all its segments
+    let mut skip = false; // tracks that the clause being parsed doesn't apply to this entry
     while let Some(mut c) = chars.pop() {
         match state {
             State::Target => {
                 group = 0; // reset group for next chmod
                 op = '0'; // reset op for next chmod
                 complete = false;
+                skip = false;
 
                 loop {
                     if c != 'd' && c != 'f' && c != 'a' && c != ':' {
@@ -346,14 +348,7 @@ pub(crate) fn mode(entry: &VfsEntry, octal: u32, sym: &str) -> RvResult<u32> {
                     if entry.is_symlink() {
                         return Ok(mode); // links are never changed so just return the original mode
                     } else if (c == 'd' && !entry.is_dir()) || (c == 'f' && !entry.is_file()) {
-                        // target mismatch so skip this clause and carry on with the next one
-                        while let Some(x) = chars.pop() {
-                            if x == ',' {
-                                break;
-                            }
-                        }
-                        complete = true;
-                        break;
+                        skip = true; // target mismatch so this clause is checked but not applied
                     } else if c == ':' {
                         state = State::Group;
                         break;
@@ -414,10 +409,12 @@ pub(crate) fn mode(entry: &VfsEntry, octal: u32, sym: &str) -> RvResult<u32> {
                 }
 
                 // Process permission
-                match op {
-                    '-' => mode &= !(group & perm),
-                    '+' => mode |= group & perm,
-                    _ => mode = (!group & mode) | (group & perm),
+                if !skip {
+                    match op {
+                        '-' => mode &= !(group & perm),
+                        '+' => mode |= group & perm,
+                        _ => mode = (!group & mode) | (group & perm),
+                    }
                 }
                 complete = true;
             },
